@@ -9,9 +9,12 @@ hand model Model/Wincon.v the theorems of C07 / C03 / C18 / C14 are about.
 HAND-MODELLED, pinned by token hash (trait-object plumbing):
   * the `Perform` trait of anstyle-parse (default method bodies: every callback a capture does not
     override is a no-op) and the set of callbacks `impl Perform for WinconCapture` overrides: the
-    dispatcher `g_perform` (an event of the parser -> the translated callback) is written from them;
-  * `WinconBytesIter::next` / `WinconBytes::extract_next` (iterator plumbing around next_bytes:
-    Model/Wincon.wincon_iter / extract_next).
+    dispatcher `g_perform` (an event of the parser -> the translated callback) is written from them.
+ALSO TRANSLATED (no longer pinned): `WinconBytes::new` (a derived Default: the derive attributes and the field lists of
+WinconBytes / WinconCapture are read from the source, tools/glue_common.py), `WinconBytes::extract_next` and
+`WinconBytesIter::next`.  extract_next returns a struct holding `&mut self.parser` / `&mut self.capture`: the value
+translation copies the fields into the iterator, Proofs/WinconGen.v (gt_extract_next) writes the copy-out and proves the
+drive equal to the hand-written one (g_extract_next = Model/Wincon.extract_next).
 `parser.advance(capture, byte)` is the TRANSLATED parser (Generated/ParserFn.g_advance) whose events
 are fed, in order, to the translated callbacks (g_perform_events), as Model/Wincon.v does with the hand
 parser.  `for param in params` iterates the parameter groups: the `params` argument IS the list of groups
@@ -24,6 +27,7 @@ sys.path.insert(0, os.path.dirname(os.path.abspath(__file__)))
 from rs2v.driver import translate, TranslateError, token_hash, fn_source   # noqa: E402
 from rs2v.lexer import tokenize                                            # noqa: E402
 from rs2v.emit import NeedsBind                                            # noqa: E402
+from glue_common import make_f_default, derive_default                   # noqa: E402
 
 U8, U16, USZ, CHAR = ("int", "u8"), ("int", "u16"), ("int", "usize"), ("int", "char")
 BOOL, UNIT = ("bool",), ("unit",)
@@ -150,11 +154,20 @@ METHODS = {
 
 ENUM_ACOLOR = {"coq": "acolor", "eqb": None, "variants": {a: "A" + a for a in ANSI16}}
 
+def m_reserve(em, e, rt, rty, env, k):
+    """String::reserve(n): capacity only, nothing observable (the argument is evaluated)"""
+    if len(e.args) != 1:
+        raise EmitError("reserve takes one argument")
+    return em.expr(e.args[0], env, lambda _t, _ty, env1: k("tt", ("unit",), env1))
+
+
+METHODS[("list", "reserve")] = m_reserve
+
 VOCAB = {
     "reserved": ["parser", "event", "st_insert", "st_remove", "set_fg", "set_bg", "set_ulc", "set_eff", "s_eff", "s_fg", "s_bg", "s_ul", "CAnsi", "CIdx", "CRgb",
                  "ansi_idx", "style_default", "g_ansi_bright", "g_advance", "cfg_default", "g_perform", "g_perform_events", "bit", "N", "ldiff", "lor"] + EFFECT_NAMES,
     "no_transparent": ("into",),
-    "type_alias": {"String": ("list", CHAR), "Parser": PARSER},
+    "type_alias": {"String": ("list", CHAR), "Parser": PARSER, "Item": ("tuple", (STYLE, ("list", CHAR)))},
     "enums": {
         "State": {"coq": "wstate", "eqb": "wstate_eqb", "variants": {
             "Normal": "WNormal", "PrepareCustomColor": "WPrepareCustomColor", "Ansi256": "WAnsi256", "Rgb": "WRgb", "Underline": "WUnderline"}},
@@ -162,10 +175,20 @@ VOCAB = {
         "AnsiColor": ENUM_ACOLOR,
     },
     "structs": {
-        "WinconCapture": {"coq": "capture", "var": "cap", "fields": {
+        "WinconCapture": {"coq": "capture", "var": "cap", "ctor": ("mkCap", ["style", "printable", "ready"]), "fields": {
             "style": ("c_style", "set_c_style", STYLE),
             "printable": ("c_printable", "set_c_printable", ("list", CHAR)),
             "ready": ("c_ready", "set_c_ready", ("opt", STYLE)),
+        }},
+        "WinconBytes": {"coq": "wbytes", "var": "wb", "ctor": ("mkWB", ["parser", "capture"]), "fields": {
+            "parser": ("wb_parser", "set_wb_parser", PARSER),
+            "capture": ("wb_capture", "set_wb_capture", ("struct", "WinconCapture")),
+        }},
+        # the two `&'s mut` fields by value: Proofs/WinconGen.v writes the copy-out the borrows mean (gt_extract_next)
+        "WinconBytesIter": {"coq": "wbiter", "var": "it", "ctor": ("mkWBI", ["bytes", "parser", "capture"]), "fields": {
+            "bytes": ("wbi_bytes", "set_wbi_bytes", ("list", U8)),
+            "parser": ("wbi_parser", "set_wbi_parser", PARSER),
+            "capture": ("wbi_capture", "set_wbi_capture", ("struct", "WinconCapture")),
         }},
         # anstyle types: records / encodings of the hand model (Spec/Sgr.sstyle, colour; Effects = bit set)
         "Style": {"coq": "sstyle", "var": "s", "fields": {}, "check": False, "eqb": "style_eqb", "bitor": "st_or_eff"},
@@ -184,9 +207,19 @@ VOCAB = {
         "RgbColor": f_rgb,
         "Style::default": f_style_default,
         "mem::take": f_mem_take,
+        # `Default::default()` as the value of `WinconBytes::new() -> Self`: the derived Default (attribute and field list
+        # read from the source, tools/glue_common.py); anstyle_parse::Parser::default() = parser_new, Style::default() =
+        # style_default, String / Option defaults; WinconCapture derives Default itself
+        "Default::default": make_f_default({
+            repr(PARSER): "parser_new",
+            repr(("struct", "WinconCapture")): lambda em: derive_default(em.items, "WinconCapture", ("mkCap", ["style", "printable", "ready"]), lambda f, t: {
+                "style": "style_default", "printable": "[]", "ready": "None"}[f]),
+        }),
     },
     "methods": METHODS,
-    "fuel": {"next_bytes": ["(S (length bytes))"]},
+    # every iteration consumes a byte; a callable, so that the Coq name of `bytes` is looked up (the field names of
+    # WinconBytesIter are reserved words of the vocabulary now)
+    "fuel": {"next_bytes": [lambda env: "(S (length %s))" % env.get("bytes").coq]},
     "opaque": {},
 }
 
@@ -307,14 +340,13 @@ def register(generators, gm):
             if sorted(overridden) != ["csi_dispatch", "execute", "print"]:
                 raise TranslateError("impl Perform for WinconCapture overrides %s; the plumbing models csi_dispatch, execute, print" % sorted(overridden))
             out.append(plumbing(overridden, shapes))
-            for key, pin in (("WinconBytesIter::next", PIN_ITER_NEXT), ("WinconBytes::extract_next", PIN_EXTRACT_NEXT)):
-                impl_of, fname = key.split("::")
-                h = token_hash(fn_source(src, fname, impl_of))
-                if h != pin:
-                    raise TranslateError("opaque function %s changed (token hash %s, pinned %s): iterator plumbing around next_bytes, "
-                                         "modelled by hand (Model/Wincon.wincon_iter / extract_next)" % (key, h, pin))
-            # next_bytes
-            out.append(translate(src, VOCAB, [("next_bytes", None, "g_next_bytes", {})], "", "", shapes))
+            # next_bytes, then the iterator glue around it: WinconBytes::{new, extract_next}, WinconBytesIter::next
+            out.append(translate(src, VOCAB, [
+                ("next_bytes", None, "g_next_bytes", {}),
+                ("new", "WinconBytes", "g_wb_new", {}),
+                ("extract_next", "WinconBytes", "g_wb_extract_next", {}),
+                ("next", "WinconBytesIter", "g_wbi_next", {"trait": "Iterator"}),
+            ], "", "", shapes))
             return "\n".join(out) + "\n"
         except TranslateError as e:
             raise gm.GenError(str(e))
@@ -323,5 +355,3 @@ def register(generators, gm):
 
 # trait-object / iterator plumbing, modelled by hand: token hashes
 PIN_TRAIT_PERFORM = "1e7e2a67feac0245"
-PIN_ITER_NEXT = "79e635c80a259918"
-PIN_EXTRACT_NEXT = "00c94a53a4637a14"
